@@ -14,6 +14,7 @@ def scan(texts):
         if re.search(r"\badmit\s*\(", t):
             out.add("CHEAT: admit( present in emitted file")
     base = [
+        "compiler-generated derives: #[derive(PartialEq)] on the field-less enums Bit/Endianness/ConvertionError is structural equality (Verus `Structural`); #[derive(Clone, Copy)] copies",
         "T5 machine model: 64-bit little-endian target (usize = 64 bits)",
         "A-size: storage smaller than usize::MAX/2 bits (size_ok) is a precondition of every unit",
         "A-new: Bvf::new / Bvd::new are called with well-formed parts (only public way to build a non-wf vector)",
